@@ -238,10 +238,15 @@ def follow_hyp(isoforms, params, ti, blocks, polya):
     ri = introns_of(blocks)
     if any(ri[k][1] + d >= ri[k + 1][0] for k in range(len(ri) - 1)):
         return False
+    # `hsingle` (proof-closure round: `block_has_atom` takes the symmetric hypothesis since fix 48e5811): no length condition
+    # for spliced reads - every block shares an end with its exon; a single-block read is at least 2*meo - 1 long or shares
+    # one of its ends with the exon of T it lies in
     ln = blocks[0][1] - blocks[0][0] + 1
     meo = params.minimal_exon_overlap
-    if ln < meo or (len(blocks) == 1 and ln < 2 * meo - 1):
-        return False
+    if len(blocks) == 1 and ln < 2 * meo - 1:
+        b0, b1 = blocks[0]
+        if not any(e[0] <= b0 and b1 <= e[1] and (b0 == e[0] or b1 == e[1]) for e in T):
+            return False
     return polya[0] == -1 and polya[1] == -1
 
 
